@@ -112,7 +112,8 @@ def mc_jobs(ctx):
     if not q:
         devs += [("no_retry", L, {"LoopExits", "TimerFlushes", "Unparks"})]
     for name, c, want in devs:
-        bad.append(("dev/" + name + "/" + c["Kind"], dict(c, Mutant=name), want))
+        how = {"BatchRoute_mc.cfg": "/model-invariants", "BatchRoute_live.cfg": "/liveness"}.get(c["cfg"], "" if c["TimerOn"] else "/no-timer")
+        bad.append(("dev/" + name + "/" + c["Kind"] + how, dict(c, Mutant=name), want))
     return ok, bad
 
 
